@@ -7,6 +7,7 @@ import (
 	"sort"
 	"strconv"
 	"strings"
+	"syscall"
 	"testing/iotest"
 	"time"
 
@@ -45,6 +46,27 @@ func clResult(es changelog.ChangelogEntries, err error) string {
 	return "ok " + dumpClEntries(es)
 }
 
+// fifoWith creates a named pipe at path and a writer that delivers text to whoever opens it
+func fifoWith(path, text string) string {
+	if err := syscall.Mkfifo(path, 0o600); err != nil {
+		return path
+	}
+	go func() {
+		// wait (at most ~2 s) for a reader, write, close
+		for i := 0; i < 2000; i++ {
+			w, err := os.OpenFile(path, os.O_WRONLY|syscall.O_NONBLOCK, 0)
+			if err == nil {
+				syscall.SetNonblock(int(w.Fd()), false)
+				w.WriteString(text)
+				w.Close()
+				return
+			}
+			time.Sleep(time.Millisecond)
+		}
+	}()
+	return path
+}
+
 var changelogImpl = map[string]core.Adapter{
 	"changelog": func(a []string) string {
 		text := core.MustUnHex(a[0])
@@ -65,6 +87,12 @@ var changelogImpl = map[string]core.Adapter{
 			if viaFile := clResult(changelog.ParseFile(f.Name())); viaFile != res {
 				return "parsefile-differs " + res + " / " + viaFile
 			}
+			// a named pipe: a file whose size is not known in advance (as with <(zcat changelog.gz))
+			if viaPipe := clResult(changelog.ParseFile(fifoWith(f.Name()+".fifo", text))); viaPipe != res {
+				os.Remove(f.Name() + ".fifo")
+				return "parsefile-on-a-pipe-differs " + res + " / " + viaPipe
+			}
+			os.Remove(f.Name() + ".fifo")
 			e1, err1 := changelog.ParseFileOne(f.Name())
 			e2, err2 := changelog.ParseOne(bufio.NewReader(strings.NewReader(text)))
 			if (err1 == nil) != (err2 == nil) || (err1 == nil && dumpClEntries(changelog.ChangelogEntries{*e1}) != dumpClEntries(changelog.ChangelogEntries{*e2})) {
@@ -283,8 +311,27 @@ func init() {
 		if err != nil {
 			return "FAIL rejected: " + err.Error()
 		}
-		if got, want := dumpClEntries(es), core.MustUnHex(a[1]); got != want {
+		want := core.MustUnHex(a[1])
+		if got := dumpClEntries(es); got != want {
 			return "FAIL entries differ from what was written: got " + clipStr(got, 300) + " want " + clipStr(want, 300)
+		}
+		// the same through the file entry point: a regular file and a named pipe
+		if f, err := os.CreateTemp("", "verif-changelog-"); err == nil {
+			defer os.Remove(f.Name())
+			f.WriteString(core.MustUnHex(a[0]))
+			f.Close()
+			for _, path := range []string{f.Name(), fifoWith(f.Name()+".fifo", core.MustUnHex(a[0]))} {
+				es, err := changelog.ParseFile(path)
+				if path != f.Name() {
+					os.Remove(path)
+				}
+				if err != nil {
+					return "FAIL ParseFile(" + map[bool]string{true: "regular file", false: "named pipe"}[path == f.Name()] + ") rejected: " + err.Error()
+				}
+				if got := dumpClEntries(es); got != want {
+					return "FAIL ParseFile(" + map[bool]string{true: "regular file", false: "named pipe"}[path == f.Name()] + "): entries differ from what was written: got " + clipStr(got, 300) + " want " + clipStr(want, 300)
+				}
+			}
 		}
 		return "ok"
 	}
